@@ -228,7 +228,7 @@ def check(an: Analysis) -> None:
                     ok = isinstance(within_, ast.Call) and an.callee(get, within_) == "functools.partial" and len(within_.args) == 2 and dotted(within_.args[0]) == "self.__method_call__" and is_name(within_.args[1], get.param_names()[1])
                 if not ok:
                     ob.fail(get, r, "the bound-method form is not mimic(self._function, within=partial(self.__method_call__, instance))")
-    for fi in prog.functions.values():
+    for fi in prog.scan_functions():
         if not fi.module.name.startswith("haiway.helpers.") or fi.cls is not None or fi.outer is None:
             continue
         outer = fi.outer
